@@ -167,6 +167,11 @@ class WriterModel(object):
             return []
         if isinstance(node, ast.Constant) and node.value is None:
             return []
+        if isinstance(node, ast.Call) and (P.call_name(node) or '').startswith('self.') and P.call_name(node)[5:] in self.methods and '.' not in P.call_name(node)[5:]:
+            # an attribute list produced by a helper and used in place: self.write_tag(tag, self._helper(x))
+            got = self.call_returning_list(P.call_name(node)[5:], node, env, lists, guards, Element('#scratch', [], [], method, 0))
+            if got is not None:
+                return [Row(r.key, r.value, r.guards + [g for g in guards if g not in r.guards], r.line, r.method) for r in got.rows]
         if isinstance(node, (ast.GeneratorExp, ast.ListComp)) and len(node.generators) == 1:
             # (key, value) pairs produced from a literal table, possibly filtered
             gen = node.generators[0]
